@@ -6,6 +6,7 @@ use std::sync::Arc;
 use std::time::Duration;
 
 use octo_squirrel::config::ServerConfig;
+use octo_squirrel::protocol::address::Address;
 use octo_squirrel_client::client::verif as cv;
 use octo_squirrel_server::server::verif as sv;
 use tokio::io::{AsyncReadExt, AsyncWriteExt};
@@ -16,10 +17,32 @@ use crate::util::*;
 
 pub struct World {
     pub rt: tokio::runtime::Runtime,
+    /// where the real server listens
     pub server_port: u16,
+    /// where the client connects: the server itself, or a cuttable forwarder in front of it
+    pub link_port: u16,
     pub client_port: u16,
+    /// 0: server, 1: client tcp, 2: client udp (when configured)
     pub tasks: Vec<tokio::task::JoinHandle<()>>,
     pub udp: bool,
+    pub protocol: String,
+    pub cipher: String,
+    pub client_password: String,
+    scfg: ServerConfig<sv::SslConfig>,
+    links: Arc<std::sync::Mutex<Vec<tokio::task::AbortHandle>>>,
+    baseline: std::sync::Mutex<Option<(usize, usize)>>,
+}
+
+pub struct TcpScript {
+    pub kind: String,
+    pub host: String,
+    pub up: Vec<Vec<u8>>,
+    pub down: Vec<u8>,
+    pub target_closes_first: bool,
+    /// "up": a scripted listener; "refused": a port nobody listens on; "unresolvable": a name that does not resolve
+    pub target: String,
+    /// cut the client-server link once this many upstream chunks have reached the target
+    pub cut_after: Option<usize>,
 }
 
 fn free_port() -> u16 {
@@ -32,22 +55,48 @@ pub fn open_fds() -> usize {
 
 impl World {
     /// `mode`: the server's mode (the client gets tcp_and_udp when udp is asked for)
-    pub fn start(protocol: &str, cipher: &str, server_password: &str, client_password: &str, users: &[(String, String)], mode: &str, ws: bool) -> anyhow::Result<World> {
-        let rt = tokio::runtime::Builder::new_multi_thread().worker_threads(4).enable_all().build()?;
+    #[allow(clippy::too_many_arguments)]
+    pub fn start(protocol: &str, cipher: &str, server_password: &str, client_password: &str, users: &[(String, String)], mode: &str, ws: bool, link: bool, threads: usize, tls: Option<&str>) -> anyhow::Result<World> {
+        let rt = tokio::runtime::Builder::new_multi_thread().worker_threads(threads.clamp(2, 16)).enable_all().build()?;
         let server_port = free_port();
         let client_port = free_port();
+        let link_port = if link { free_port() } else { server_port };
         let users_json: Vec<serde_json::Value> = users.iter().map(|(n, p)| serde_json::json!({"name": n, "password": p})).collect();
         let mut sj = serde_json::json!({"host": "127.0.0.1", "port": server_port, "password": server_password, "protocol": protocol, "cipher": cipher, "mode": mode, "user": users_json});
-        let mut cj = serde_json::json!({"host": "127.0.0.1", "port": server_port, "password": client_password, "protocol": protocol, "cipher": cipher, "mode": mode});
+        let mut cj = serde_json::json!({"host": "127.0.0.1", "port": link_port, "password": client_password, "protocol": protocol, "cipher": cipher, "mode": mode});
         if ws {
             sj["ws"] = serde_json::json!({"path": "/ws"});
             cj["ws"] = serde_json::json!({"path": "/ws", "header": {"Host": "127.0.0.1"}});
+        }
+        if let Some(kind) = tls {
+            let dir = tls_dir();
+            let ssl = serde_json::json!({"certificateFile": format!("{}/cert.pem", dir), "keyFile": format!("{}/key.pem", dir), "serverName": "localhost"});
+            let cssl = serde_json::json!({"certificateFile": format!("{}/cert.pem", dir), "serverName": "localhost"});
+            sj[kind] = ssl;
+            cj[kind] = cssl;
         }
         let scfg: ServerConfig<sv::SslConfig> = serde_json::from_value(sj)?;
         let ccfg: ServerConfig<cv::SslConfig> = serde_json::from_value(cj)?;
         let udp = mode.contains("udp");
         let mut tasks = vec![];
-        tasks.push(rt.spawn(sv::startup(scfg)));
+        tasks.push(rt.spawn(sv::startup(scfg.clone())));
+        let links: Arc<std::sync::Mutex<Vec<tokio::task::AbortHandle>>> = Arc::default();
+        if link {
+            let links = links.clone();
+            let l = rt.block_on(TcpListener::bind(("127.0.0.1", link_port)))?;
+            rt.spawn(async move {
+                while let Ok((mut a, _)) = l.accept().await {
+                    let h = tokio::spawn(async move {
+                        if let Ok(mut b) = TcpStream::connect(("127.0.0.1", server_port)).await {
+                            let _ = a.set_nodelay(true);
+                            let _ = b.set_nodelay(true);
+                            let _ = tokio::io::copy_bidirectional(&mut a, &mut b).await;
+                        }
+                    });
+                    links.lock().unwrap().push(h.abort_handle());
+                }
+            });
+        }
         let listen: SocketAddr = format!("127.0.0.1:{}", client_port).parse()?;
         let (listener, socket) = rt.block_on(async {
             // give the server a moment to bind
@@ -60,209 +109,149 @@ impl World {
         if let Some(socket) = socket {
             tasks.push(rt.spawn(cv::transfer_udp(socket, ccfg)));
         }
-        Ok(World { rt, server_port, client_port, tasks, udp })
-    }
-
-    /// one TCP flow through client and server to a scripted target.
-    /// `up`: chunks the application writes (with small pauses); `down`: bytes the target answers after it
-    /// has received everything; `close`: who closes first.  Returns a canonical observation.
-    pub fn tcp_flow(&self, kind: &str, host: &str, up: &[Vec<u8>], down: &[u8], target_closes_first: bool) -> String {
-        let client_port = self.client_port;
-        let up = up.to_vec();
-        let down = down.to_vec();
-        let kind = kind.to_owned();
-        let host = host.to_owned();
-        self.rt.block_on(async move {
-            let Ok(target) = TcpListener::bind("127.0.0.1:0").await else { return "no-loopback".to_owned() };
-            let tport = target.local_addr().unwrap().port();
-            let total_up: usize = up.iter().map(|c| c.len()).sum();
-            let seen = Arc::new(Mutex::new((Vec::new(), false)));
-            let seen2 = seen.clone();
-            let down2 = down.clone();
-            let plain_http = kind == "http";
-            let target_task = tokio::spawn(async move {
-                let Ok(Ok((mut t, _))) = tokio::time::timeout(Duration::from_secs(5), target.accept()).await else { return false };
-                let mut buf = vec![0u8; 65536];
-                let mut got = Vec::new();
-                // read until the expected amount has arrived (plain http: the request itself is forwarded too)
-                loop {
-                    if !plain_http && got.len() >= total_up {
-                        break;
-                    }
-                    match tokio::time::timeout(Duration::from_millis(if plain_http { 400 } else { 3000 }), t.read(&mut buf)).await {
-                        Ok(Ok(0)) => break,
-                        Ok(Ok(n)) => got.extend_from_slice(&buf[..n]),
-                        _ => break,
-                    }
-                }
-                let _ = t.write_all(&down2).await;
-                let mut eof_from_app = false;
-                if target_closes_first {
-                    let _ = t.shutdown().await;
-                } else {
-                    // wait for the application's close to propagate
-                    loop {
-                        match tokio::time::timeout(Duration::from_secs(3), t.read(&mut buf)).await {
-                            Ok(Ok(0)) => {
-                                eof_from_app = true;
-                                break;
-                            }
-                            Ok(Ok(n)) => got.extend_from_slice(&buf[..n]),
-                            _ => break,
-                        }
-                    }
-                }
-                *seen2.lock().await = (got, eof_from_app);
-                true
-            });
-            let Ok(mut app) = TcpStream::connect(("127.0.0.1", client_port)).await else { return "client-refused".to_owned() };
-            let _ = app.set_nodelay(true);
-            // local handshake
-            let mut preamble = Vec::new();
-            match kind.as_str() {
-                "socks5" => {
-                    let _ = app.write_all(&[5, 1, 0]).await;
-                    let mut b = [0u8; 2];
-                    if tokio::time::timeout(Duration::from_secs(3), app.read_exact(&mut b)).await.is_err() {
-                        return "handshake-timeout".to_owned();
-                    }
-                    let mut req = vec![5u8, 1, 0];
-                    if host == "127.0.0.1" {
-                        req.extend_from_slice(&[1, 127, 0, 0, 1]);
-                    } else {
-                        req.push(3);
-                        req.push(host.len() as u8);
-                        req.extend_from_slice(host.as_bytes());
-                    }
-                    req.extend_from_slice(&tport.to_be_bytes());
-                    let _ = app.write_all(&req).await;
-                    let mut b = [0u8; 10];
-                    if tokio::time::timeout(Duration::from_secs(3), app.read_exact(&mut b)).await.is_err() {
-                        return "handshake-timeout".to_owned();
-                    }
-                }
-                "connect" => {
-                    let _ = app.write_all(format!("CONNECT {}:{} HTTP/1.1\r\nHost: {}:{}\r\n\r\n", host, tport, host, tport).as_bytes()).await;
-                    let mut b = [0u8; 39];
-                    if tokio::time::timeout(Duration::from_secs(3), app.read_exact(&mut b)).await.is_err() {
-                        return "handshake-timeout".to_owned();
-                    }
-                }
-                _ => {
-                    preamble = format!("POST http://{}:{}/upload HTTP/1.1\r\nHost: {}:{}\r\nContent-Length: {}\r\n\r\n", host, tport, host, tport, total_up).into_bytes();
-                    let _ = app.write_all(&preamble).await;
-                }
-            }
-            for c in &up {
-                if app.write_all(c).await.is_err() {
-                    break;
-                }
-                tokio::time::sleep(Duration::from_millis(2)).await;
-            }
-            let mut got_down = Vec::new();
-            let mut buf = vec![0u8; 65536];
-            let mut eof = false;
-            if !target_closes_first {
-                // read the answer, then close first
-                while got_down.len() < down.len() {
-                    match tokio::time::timeout(Duration::from_secs(3), app.read(&mut buf)).await {
-                        Ok(Ok(0)) => {
-                            eof = true;
-                            break;
-                        }
-                        Ok(Ok(n)) => got_down.extend_from_slice(&buf[..n]),
-                        _ => break,
-                    }
-                }
-                let _ = app.shutdown().await;
-            }
-            if !eof {
-                loop {
-                    match tokio::time::timeout(Duration::from_secs(3), app.read(&mut buf)).await {
-                        Ok(Ok(0)) => {
-                            eof = true;
-                            break;
-                        }
-                        Ok(Ok(n)) => got_down.extend_from_slice(&buf[..n]),
-                        _ => break,
-                    }
-                }
-            }
-            let dialed = tokio::time::timeout(Duration::from_secs(6), target_task).await.ok().and_then(|r| r.ok()).unwrap_or(false);
-            let (got_up, eof_at_target) = seen.lock().await.clone();
-            let want_up: Vec<u8> = [preamble, up.concat()].concat();
-            format!(
-                "dialed={} up={} down={} eof={} target-eof={}",
-                dialed as u8,
-                if got_up == want_up { "ok".to_owned() } else { format!("diff:{}of{}", got_up.len(), want_up.len()) },
-                if got_down == down { "ok".to_owned() } else { format!("diff:{}of{}", got_down.len(), down.len()) },
-                eof as u8,
-                if target_closes_first { "-".to_owned() } else { (eof_at_target as u8).to_string() }
-            )
+        Ok(World {
+            rt,
+            server_port,
+            link_port,
+            client_port,
+            tasks,
+            udp,
+            protocol: protocol.to_owned(),
+            cipher: cipher.to_owned(),
+            client_password: client_password.to_owned(),
+            scfg,
+            links,
+            baseline: std::sync::Mutex::new(None),
         })
     }
 
-    /// datagrams from one local application to scripted udp echo targets and back
+    /// cut every client-server link that is up (the forwarder drops both of its sockets)
+    pub fn cut(&self) -> String {
+        let mut l = self.links.lock().unwrap();
+        let n = l.len();
+        for h in l.drain(..) {
+            h.abort();
+        }
+        if self.link_port == self.server_port { "no-link".to_owned() } else { format!("cut:{}", (n > 0) as u8) }
+    }
+
+    pub fn server(&mut self, what: &str) -> String {
+        match what {
+            "stop" => {
+                self.tasks[0].abort();
+                let t = &mut self.tasks[0];
+                let _ = self.rt.block_on(async { tokio::time::timeout(Duration::from_secs(2), t).await });
+                "ok".to_owned()
+            }
+            "start" => {
+                self.tasks[0] = self.rt.spawn(sv::startup(self.scfg.clone()));
+                self.rt.block_on(async { tokio::time::sleep(Duration::from_millis(80)).await });
+                "ok".to_owned()
+            }
+            _ => "bad-op".to_owned(),
+        }
+    }
+
+    fn usage(&self) -> (usize, usize) {
+        (open_fds(), self.rt.metrics().num_alive_tasks())
+    }
+
+    /// remember the idle descriptor and task counts
+    pub fn fd_base(&self) -> String {
+        self.rt.block_on(async { tokio::time::sleep(Duration::from_millis(150)).await });
+        *self.baseline.lock().unwrap() = Some(self.usage());
+        "ok".to_owned()
+    }
+
+    /// have descriptors and tasks returned to the idle baseline (waits up to 3 s for the last closes to land)
+    pub fn fd_check(&self) -> String {
+        let Some(base) = *self.baseline.lock().unwrap() else { return "bad-op".to_owned() };
+        let mut now = self.usage();
+        for _ in 0..60 {
+            if now.0 <= base.0 && now.1 <= base.1 {
+                return "baseline".to_owned();
+            }
+            self.rt.block_on(async { tokio::time::sleep(Duration::from_millis(50)).await });
+            now = self.usage();
+        }
+        format!("leak:fds+{},tasks+{}", now.0.saturating_sub(base.0), now.1.saturating_sub(base.1))
+    }
+
+    pub fn tcp_flow(&self, sc: TcpScript) -> String {
+        let links = self.links.clone();
+        self.rt.block_on(tcp_flow(self.client_port, sc, links))
+    }
+
+    /// `n` tcp flows and `m` udp flows at the same time, each with its own target and payload
+    pub fn par(&self, scripts: Vec<TcpScript>, udp: Vec<Vec<Vec<u8>>>) -> String {
+        let cp = self.client_port;
+        let links = self.links.clone();
+        self.rt.block_on(async move {
+            let tcp: Vec<_> = scripts.into_iter().map(|sc| tokio::spawn(tcp_flow(cp, sc, links.clone()))).collect();
+            let udp: Vec<_> = udp.into_iter().map(|p| tokio::spawn(udp_flow(cp, p))).collect();
+            let mut out = Vec::new();
+            for (label, hs) in [("tcp", tcp), ("udp", udp)] {
+                let mut res: std::collections::BTreeMap<String, usize> = Default::default();
+                for h in hs {
+                    *res.entry(h.await.unwrap_or_else(|_| "panic".to_owned())).or_default() += 1;
+                }
+                for (k, v) in res {
+                    out.push(format!("{}:{}x[{}]", label, v, k));
+                }
+            }
+            if out.is_empty() { "none".to_owned() } else { out.join(" ") }
+        })
+    }
+
     pub fn udp_flow(&self, payloads: &[Vec<u8>]) -> String {
-        let client_port = self.client_port;
-        let payloads = payloads.to_vec();
-        self.rt.block_on(async move {
-            let Ok(target) = UdpSocket::bind("127.0.0.1:0").await else { return "no-loopback".to_owned() };
-            let taddr = target.local_addr().unwrap();
-            let n = payloads.len();
-            let echo = tokio::spawn(async move {
-                let mut buf = vec![0u8; 70000];
-                let mut seen = Vec::new();
-                for _ in 0..n {
-                    match tokio::time::timeout(Duration::from_secs(3), target.recv_from(&mut buf)).await {
-                        Ok(Ok((l, from))) => {
-                            seen.push(buf[..l].to_vec());
-                            let mut answer = b"re:".to_vec();
-                            answer.extend_from_slice(&buf[..l]);
-                            let _ = target.send_to(&answer, from).await;
-                        }
-                        _ => break,
-                    }
-                }
-                seen
-            });
-            let Ok(app) = UdpSocket::bind("127.0.0.1:0").await else { return "no-loopback".to_owned() };
-            let mut answers = Vec::new();
-            let mut buf = vec![0u8; 70000];
-            for p in &payloads {
-                let mut d = vec![0u8, 0, 0, 1, 127, 0, 0, 1];
-                d.extend_from_slice(&taddr.port().to_be_bytes());
-                d.extend_from_slice(p);
-                let _ = app.send_to(&d, ("127.0.0.1", client_port)).await;
-                match tokio::time::timeout(Duration::from_secs(3), app.recv_from(&mut buf)).await {
-                    Ok(Ok((l, _))) => answers.push(buf[..l].to_vec()),
-                    _ => answers.push(vec![]),
-                }
-            }
-            let seen = echo.await.unwrap_or_default();
-            let mut ok_up = seen.len() == payloads.len();
-            for (a, b) in seen.iter().zip(payloads.iter()) {
-                ok_up &= a == b;
-            }
-            let mut ok_down = true;
-            for (a, p) in answers.iter().zip(payloads.iter()) {
-                let mut want = vec![0u8, 0, 0, 1, 127, 0, 0, 1];
-                want.extend_from_slice(&taddr.port().to_be_bytes());
-                want.extend_from_slice(b"re:");
-                want.extend_from_slice(p);
-                ok_down &= *a == want;
-            }
-            format!("up={} down={}", if ok_up { "ok".to_owned() } else { format!("diff:{}of{}", seen.len(), payloads.len()) }, if ok_down { "ok" } else { "diff" })
-        })
+        self.rt.block_on(udp_flow(self.client_port, payloads.to_vec()))
     }
 
     /// one misbehaving flow from the catalogue; returns when it is over
     pub fn fault(&self, kind: &str, junk: &[u8]) -> String {
         let (sp, cp) = (self.server_port, self.client_port);
         let kind = kind.to_owned();
-        let junk = junk.to_vec();
+        let mut junk = junk.to_vec();
+        if kind == "server-udp-replay" || kind == "server-udp-unresolvable" {
+            // a genuine datagram of a fresh session, built by the real client codec
+            if self.protocol != "shadowsocks" {
+                return "n/a".to_owned();
+            }
+            let Ok(mut c) = crate::ssudp::client(&self.rt, &self.cipher, &self.client_password) else { return "n/a".to_owned() };
+            let addr = if kind == "server-udp-replay" { Address::Domain("127.0.0.1".into(), 9) } else { Address::Domain("no-such-host.invalid".into(), 53) };
+            let Ok(w) = c.encode(addr, b"again") else { return "n/a".to_owned() };
+            junk = w;
+        }
+        if kind == "accept-emfile" {
+            return self.emfile();
+        }
         self.rt.block_on(async move {
             match kind.as_str() {
+                "server-udp-replay" | "server-udp-unresolvable" => {
+                    let Ok(u) = UdpSocket::bind("127.0.0.1:0").await else { return "no-loopback".to_owned() };
+                    for _ in 0..3 {
+                        let _ = u.send_to(&junk, ("127.0.0.1", sp)).await;
+                        tokio::time::sleep(Duration::from_millis(20)).await;
+                    }
+                    "done".to_owned()
+                }
+                "ws-fail" => {
+                    let Ok(mut c) = TcpStream::connect(("127.0.0.1", sp)).await else { return "connect-failed".to_owned() };
+                    let _ = c.write_all(b"GET /elsewhere HTTP/1.1\r\nHost: 127.0.0.1\r\n\r\n").await;
+                    let mut b = [0u8; 256];
+                    let _ = tokio::time::timeout(Duration::from_millis(300), c.read(&mut b)).await;
+                    "done".to_owned()
+                }
+                "local-udp-unresolvable" => {
+                    let Ok(u) = UdpSocket::bind("127.0.0.1:0").await else { return "no-loopback".to_owned() };
+                    let mut d = vec![0u8, 0, 0, 3, 20];
+                    d.extend_from_slice(b"no-such-host.invalid");
+                    d.extend_from_slice(&[0, 53]);
+                    d.extend_from_slice(b"hello");
+                    let _ = u.send_to(&d, ("127.0.0.1", cp)).await;
+                    tokio::time::sleep(Duration::from_millis(50)).await;
+                    "done".to_owned()
+                }
                 // towards the server's tcp port
                 "server-junk" | "server-junk-reset" | "server-stall" | "server-half" => {
                     let Ok(mut c) = TcpStream::connect(("127.0.0.1", sp)).await else { return "connect-failed".to_owned() };
@@ -311,6 +300,47 @@ impl World {
         })
     }
 
+    /// descriptor exhaustion for a moment: while the process cannot open anything, connections arrive at both
+    /// listeners (their `accept` fails with EMFILE); then the limit is restored
+    fn emfile(&self) -> String {
+        let (sp, cp) = (self.server_port, self.client_port);
+        // sockets first (connecting needs no new descriptor)
+        let mk = || unsafe { libc::socket(libc::AF_INET, libc::SOCK_STREAM | libc::SOCK_NONBLOCK, 0) };
+        let socks = [(mk(), sp), (mk(), cp)];
+        let mut old = libc::rlimit { rlim_cur: 0, rlim_max: 0 };
+        unsafe { libc::getrlimit(libc::RLIMIT_NOFILE, &mut old) };
+        let maxfd = std::fs::read_dir("/proc/self/fd").map(|d| d.filter_map(|e| e.ok()?.file_name().to_str()?.parse::<u64>().ok()).max().unwrap_or(64)).unwrap_or(64);
+        let low = libc::rlimit { rlim_cur: maxfd + 1, rlim_max: old.rlim_max };
+        unsafe { libc::setrlimit(libc::RLIMIT_NOFILE, &low) };
+        // fill the holes below the limit
+        let mut fillers = vec![];
+        loop {
+            let fd = unsafe { libc::dup(0) };
+            if fd < 0 {
+                break;
+            }
+            fillers.push(fd);
+        }
+        for (fd, port) in socks {
+            if fd >= 0 {
+                let a = libc::sockaddr_in { sin_family: libc::AF_INET as u16, sin_port: port.to_be(), sin_addr: libc::in_addr { s_addr: u32::from_ne_bytes([127, 0, 0, 1]) }, sin_zero: [0; 8] };
+                unsafe { libc::connect(fd, &a as *const _ as *const libc::sockaddr, std::mem::size_of::<libc::sockaddr_in>() as u32) };
+            }
+        }
+        std::thread::sleep(Duration::from_millis(200));
+        for fd in fillers {
+            unsafe { libc::close(fd) };
+        }
+        unsafe { libc::setrlimit(libc::RLIMIT_NOFILE, &old) };
+        std::thread::sleep(Duration::from_millis(120));
+        for (fd, _) in socks {
+            if fd >= 0 {
+                unsafe { libc::close(fd) };
+            }
+        }
+        "done".to_owned()
+    }
+
     pub fn alive(&self) -> String {
         let dead: Vec<usize> = self.tasks.iter().enumerate().filter(|(_, t)| t.is_finished()).map(|(i, _)| i).collect();
         if dead.is_empty() { "alive".to_owned() } else { format!("ended:{:?}", dead).replace(' ', "") }
@@ -324,6 +354,257 @@ impl Drop for World {
         }
     }
 }
+
+
+const PROMPT: Duration = Duration::from_millis(2500);
+
+/// one TCP flow through client and server to a scripted target; returns a canonical observation:
+/// where the server dialled, what arrived on each side, who saw end-of-stream, and whether the end
+/// was seen promptly after the side that ends the flow closed
+pub async fn tcp_flow(client_port: u16, sc: TcpScript, links: Arc<std::sync::Mutex<Vec<tokio::task::AbortHandle>>>) -> String {
+    let TcpScript { kind, host, up, down, target_closes_first, target, cut_after } = sc;
+    let Ok(listener) = TcpListener::bind("127.0.0.1:0").await else { return "no-loopback".to_owned() };
+    let tport = listener.local_addr().unwrap().port();
+    let listener = if target == "up" {
+        Some(listener)
+    } else {
+        drop(listener); // refused: nobody listens on the port any more
+        None
+    };
+    let host = if target == "unresolvable" { "no-such-host.invalid".to_owned() } else { host };
+    let total_up: usize = up.iter().map(|c| c.len()).sum();
+    let plain_http = kind == "http";
+    #[derive(Default, Clone)]
+    struct Seen {
+        got: Vec<u8>,
+        eof: bool,
+        closed_at: Option<std::time::Instant>,
+        eof_at: Option<std::time::Instant>,
+    }
+    let seen = Arc::new(Mutex::new(Seen::default()));
+    let seen2 = seen.clone();
+    let down2 = down.clone();
+    let wait_for = if cut_after.is_some() { usize::MAX } else { total_up };
+    let target_task = tokio::spawn(async move {
+        let Some(listener) = listener else { return false };
+        let Ok(Ok((mut t, _))) = tokio::time::timeout(Duration::from_secs(4), listener.accept()).await else { return false };
+        let mut buf = vec![0u8; 65536];
+        loop {
+            if !plain_http && seen2.lock().await.got.len() >= wait_for {
+                break;
+            }
+            match tokio::time::timeout(Duration::from_millis(if plain_http { 400 } else { 4000 }), t.read(&mut buf)).await {
+                Ok(Ok(0)) => {
+                    let mut s = seen2.lock().await;
+                    s.eof = true;
+                    s.eof_at = Some(std::time::Instant::now());
+                    return true;
+                }
+                Ok(Ok(n)) => seen2.lock().await.got.extend_from_slice(&buf[..n]),
+                _ => break,
+            }
+        }
+        let _ = t.write_all(&down2).await;
+        if target_closes_first {
+            let _ = t.shutdown().await;
+            seen2.lock().await.closed_at = Some(std::time::Instant::now());
+            // keep the read side until the flow is over
+            let _ = tokio::time::timeout(Duration::from_secs(4), t.read(&mut buf)).await;
+        } else {
+            loop {
+                match tokio::time::timeout(Duration::from_secs(4), t.read(&mut buf)).await {
+                    Ok(Ok(0)) => {
+                        let mut s = seen2.lock().await;
+                        s.eof = true;
+                        s.eof_at = Some(std::time::Instant::now());
+                        break;
+                    }
+                    Ok(Ok(n)) => seen2.lock().await.got.extend_from_slice(&buf[..n]),
+                    _ => break,
+                }
+            }
+        }
+        true
+    });
+    let Ok(mut app) = TcpStream::connect(("127.0.0.1", client_port)).await else { return "client-refused".to_owned() };
+    let _ = app.set_nodelay(true);
+    let mut preamble = Vec::new();
+    match kind.as_str() {
+        "socks5" => {
+            let _ = app.write_all(&[5, 1, 0]).await;
+            let mut b = [0u8; 2];
+            if !matches!(tokio::time::timeout(Duration::from_secs(3), app.read_exact(&mut b)).await, Ok(Ok(_))) {
+                return "handshake-failed".to_owned();
+            }
+            let mut req = vec![5u8, 1, 0];
+            if host == "127.0.0.1" {
+                req.extend_from_slice(&[1, 127, 0, 0, 1]);
+            } else {
+                req.push(3);
+                req.push(host.len() as u8);
+                req.extend_from_slice(host.as_bytes());
+            }
+            req.extend_from_slice(&tport.to_be_bytes());
+            let _ = app.write_all(&req).await;
+            let mut b = [0u8; 10];
+            if !matches!(tokio::time::timeout(Duration::from_secs(3), app.read_exact(&mut b)).await, Ok(Ok(_))) {
+                return "handshake-failed".to_owned();
+            }
+        }
+        "connect" => {
+            let _ = app.write_all(format!("CONNECT {}:{} HTTP/1.1\r\nHost: {}:{}\r\n\r\n", host, tport, host, tport).as_bytes()).await;
+            let mut b = [0u8; 39];
+            if !matches!(tokio::time::timeout(Duration::from_secs(3), app.read_exact(&mut b)).await, Ok(Ok(_))) {
+                return "handshake-failed".to_owned();
+            }
+        }
+        _ => {
+            preamble = format!("POST http://{}:{}/upload HTTP/1.1\r\nHost: {}:{}\r\nContent-Length: {}\r\n\r\n", host, tport, host, tport, total_up).into_bytes();
+            let _ = app.write_all(&preamble).await;
+        }
+    }
+    let handshaken = std::time::Instant::now();
+    let mut app_closed_at = None;
+    let mut sent = 0usize;
+    for (i, c) in up.iter().enumerate() {
+        if cut_after == Some(i) {
+            break;
+        }
+        if app.write_all(c).await.is_err() {
+            break;
+        }
+        sent += c.len();
+        tokio::time::sleep(Duration::from_millis(1)).await;
+    }
+    if cut_after.is_some() {
+        // wait until what was written has crossed, then cut the link under the flow
+        for _ in 0..400 {
+            if seen.lock().await.got.len() >= sent + preamble.len() {
+                break;
+            }
+            tokio::time::sleep(Duration::from_millis(5)).await;
+        }
+        let mut l = links.lock().unwrap();
+        for h in l.drain(..) {
+            h.abort();
+        }
+        app_closed_at = Some(std::time::Instant::now());
+    }
+    let mut got_down = Vec::new();
+    let mut buf = vec![0u8; 65536];
+    let mut eof = false;
+    let mut eof_at = None;
+    if !target_closes_first && target == "up" && cut_after.is_none() {
+        // read the answer, then close first
+        while got_down.len() < down.len() {
+            match tokio::time::timeout(Duration::from_secs(4), app.read(&mut buf)).await {
+                Ok(Ok(0)) => {
+                    eof = true;
+                    eof_at = Some(std::time::Instant::now());
+                    break;
+                }
+                Ok(Ok(n)) => got_down.extend_from_slice(&buf[..n]),
+                _ => break,
+            }
+        }
+        let _ = app.shutdown().await;
+        app_closed_at = Some(std::time::Instant::now());
+    }
+    if !eof {
+        loop {
+            match tokio::time::timeout(Duration::from_secs(4), app.read(&mut buf)).await {
+                Ok(Ok(0)) | Ok(Err(_)) => {
+                    eof = true;
+                    eof_at = Some(std::time::Instant::now());
+                    break;
+                }
+                Ok(Ok(n)) => got_down.extend_from_slice(&buf[..n]),
+                Err(_) => break,
+            }
+        }
+    }
+    let dialed = tokio::time::timeout(Duration::from_secs(6), target_task).await.ok().and_then(|r| r.ok()).unwrap_or(false);
+    let s = seen.lock().await.clone();
+    let want_up: Vec<u8> = [preamble, up.concat()].concat();
+    let within = |a: Option<std::time::Instant>, b: Option<std::time::Instant>| match (a, b) {
+        (Some(a), Some(b)) => (b.saturating_duration_since(a) < PROMPT) as u8,
+        _ => 0,
+    };
+    if target != "up" {
+        // nothing to dial: the application must see the end promptly and receive nothing
+        return format!("dialed={} down={} eof={} prompt={}", dialed as u8, got_down.len(), eof as u8, within(Some(handshaken), eof_at));
+    }
+    if cut_after.is_some() {
+        let prefix = want_up.starts_with(&s.got) && s.got.len() >= sent;
+        return format!("dialed={} up-prefix={} eof={} target-eof={} prompt={}", dialed as u8, if prefix { "ok" } else { "diff" }, eof as u8, s.eof as u8, within(app_closed_at, eof_at) & within(app_closed_at, s.eof_at));
+    }
+    format!(
+        "dialed={} up={} down={} eof={} target-eof={} prompt={}",
+        dialed as u8,
+        if s.got == want_up { "ok".to_owned() } else { format!("diff:{}of{}", s.got.len(), want_up.len()) },
+        if got_down == down { "ok".to_owned() } else { format!("diff:{}of{}", got_down.len(), down.len()) },
+        eof as u8,
+        if target_closes_first { "-".to_owned() } else { (s.eof as u8).to_string() },
+        if target_closes_first { within(s.closed_at, eof_at) } else { within(app_closed_at, s.eof_at) & within(app_closed_at, eof_at) }
+    )
+}
+
+fn tls_dir() -> String {
+    std::env::var("VERIF_TLS_DIR").unwrap_or_else(|_| "/verif/work/tls".to_owned())
+}
+
+    /// datagrams from one local application to scripted udp echo targets and back
+pub async fn udp_flow(client_port: u16, payloads: Vec<Vec<u8>>) -> String {
+        {
+            let Ok(target) = UdpSocket::bind("127.0.0.1:0").await else { return "no-loopback".to_owned() };
+            let taddr = target.local_addr().unwrap();
+            let n = payloads.len();
+            let echo = tokio::spawn(async move {
+                let mut buf = vec![0u8; 70000];
+                let mut seen = Vec::new();
+                for _ in 0..n {
+                    match tokio::time::timeout(Duration::from_secs(3), target.recv_from(&mut buf)).await {
+                        Ok(Ok((l, from))) => {
+                            seen.push(buf[..l].to_vec());
+                            let mut answer = b"re:".to_vec();
+                            answer.extend_from_slice(&buf[..l]);
+                            let _ = target.send_to(&answer, from).await;
+                        }
+                        _ => break,
+                    }
+                }
+                seen
+            });
+            let Ok(app) = UdpSocket::bind("127.0.0.1:0").await else { return "no-loopback".to_owned() };
+            let mut answers = Vec::new();
+            let mut buf = vec![0u8; 70000];
+            for p in &payloads {
+                let mut d = vec![0u8, 0, 0, 1, 127, 0, 0, 1];
+                d.extend_from_slice(&taddr.port().to_be_bytes());
+                d.extend_from_slice(p);
+                let _ = app.send_to(&d, ("127.0.0.1", client_port)).await;
+                match tokio::time::timeout(Duration::from_secs(3), app.recv_from(&mut buf)).await {
+                    Ok(Ok((l, _))) => answers.push(buf[..l].to_vec()),
+                    _ => answers.push(vec![]),
+                }
+            }
+            let seen = echo.await.unwrap_or_default();
+            let mut ok_up = seen.len() == payloads.len();
+            for (a, b) in seen.iter().zip(payloads.iter()) {
+                ok_up &= a == b;
+            }
+            let mut ok_down = true;
+            for (a, p) in answers.iter().zip(payloads.iter()) {
+                let mut want = vec![0u8, 0, 0, 1, 127, 0, 0, 1];
+                want.extend_from_slice(&taddr.port().to_be_bytes());
+                want.extend_from_slice(b"re:");
+                want.extend_from_slice(p);
+                ok_down &= *a == want;
+            }
+            format!("up={} down={}", if ok_up { "ok".to_owned() } else { format!("diff:{}of{}", seen.len(), payloads.len()) }, if ok_down { "ok" } else { "diff" })
+        }
+}
+
 
 pub fn parse_sizes(s: &str) -> Vec<usize> {
     s.split(',').filter_map(|x| x.parse().ok()).collect()
